@@ -293,6 +293,67 @@ def rule_y4(ctx, funcs: List[Func]) -> None:
         ctx.note("C20-Y4: no function of the standardiser mutates a list argument on this tree")
 
 
+def rule_y5(ctx, funcs: List[Func]) -> None:
+    """A group that is recognised but cannot be rewritten returns its input (Y1
+    repair).  The scan over the recognised groups may therefore stop only when a
+    rewrite *changed* the SMILES; stopping at the first recognised group leaves
+    convertible groups behind an unconvertible one (result depends on atom order,
+    a second application converts more)."""
+    ctx.rule("C20-Y5", "the scan over recognised groups stops early only under a test that the rewrite changed the SMILES", 1)
+    n = 0
+    for f in funcs:
+        for loop in [x for x in own_nodes(f.node) if isinstance(x, ast.For)]:
+            rewrites = [c for c in ast.walk(loop) if isinstance(c, ast.Call) and isinstance(c.func, ast.Attribute) and c.func.attr.startswith("standardize_")]
+            if not rewrites:
+                continue
+            n += 1
+            cfg = CFG(f.node)
+            exits = [x for st_ in loop.body for x in ast.walk(st_) if isinstance(x, (ast.Break, ast.Return))]
+            bad = None
+            for x in exits:
+                g = cfg.guards(cfg.node_of(x))
+                changed = False
+                for c, pol in g:
+                    if isinstance(c, ast.Compare) and len(c.ops) == 1 and isinstance(c.ops[0], (ast.NotEq, ast.Eq)) and isinstance(c.left, ast.Name) and isinstance(c.comparators[0], ast.Name):
+                        changed = True
+                if not changed:
+                    bad = x
+            ctx.instance("C20-Y5", "%s: loop over %s with %d rewrite call(s); %d early exit(s), all under a changed-test: %s" % (f.name, unparse(loop.iter)[:30], len(rewrites), len(exits), bad is None), f.loc(loop), ok=bad is None)
+            if bad is not None:
+                ctx.finding("C20-Y5", "%s.%s:first-group-decides" % (f.qualname.split(".")[-2], f.name), f.loc(bad), "the scan over the recognised groups ends at the first group (%s) whether or not its rewrite changed the molecule: a group that cannot be rewritten hides the convertible groups after it" % unparse(bad)[:60])
+    ctx.require(n >= 1, "no loop over recognised groups with a standardize_* call found")
+
+
+def rule_y6(ctx, funcs: List[Func]) -> None:
+    """The standardiser edits molecules through RDKit only.  Text-level rewriting
+    of the SMILES (regex substitution, str.replace) changes implicit-hydrogen
+    semantics (a bracket atom and its bare symbol are different atoms)."""
+    ctx.rule("C20-Y6", "no textual rewrite (re.sub / str.replace) is applied to the SMILES inside the standardiser", 3)
+    prog = ctx.prog
+
+    def text_rewrites(g: Func) -> List[ast.AST]:
+        out = []
+        for c in [x for x in own_nodes(g.node) if isinstance(x, ast.Call)]:
+            if isinstance(c.func, ast.Attribute) and c.func.attr in ("sub", "subn", "replace", "translate") and c.args:
+                out.append(c)
+        return out
+
+    for f in funcs:
+        own = text_rewrites(f)
+        bad = [(c, "%s in %s" % (unparse(c.func), f.name)) for c in own]
+        for c in [x for x in own_nodes(f.node) if isinstance(x, ast.Call)]:
+            tgt = ctx.res.resolve_callee(c, f)
+            if tgt and tgt[0] == "func" and tgt[1] in prog.functions and prog.functions[tgt[1]].cls is not f.cls:
+                for q in ctx.res.reachable([tgt[1]], ctx.graph):
+                    h = prog.functions.get(q)
+                    if h is not None and q.startswith("synrbl.") and text_rewrites(h):
+                        bad.append((c, "%s (text substitution in %s)" % (unparse(c.func), q.split("synrbl.", 1)[-1])))
+                        break
+        ctx.instance("C20-Y6", "%s: textual rewrites reached: %s" % (f.name, [b[1] for b in bad] or "none"), f.loc(), ok=not bad)
+        for c, why in bad:
+            ctx.finding("C20-Y6", "%s.%s:text-rewrite:%s" % (f.qualname.split(".")[-2], f.name, unparse(c.func).split(".")[-1]), f.loc(c), "the standardiser rewrites the SMILES as text through %s: un-bracketing or editing tokens changes which hydrogens RDKit assumes ([O] radical becomes O with an H), so atoms are not conserved" % why)
+
+
 def check(ctx) -> None:
     prog = ctx.prog
     cls = prog.cls(CLS)
@@ -304,8 +365,12 @@ def check(ctx) -> None:
         rule_y2(ctx, funcs)
         rule_y3(ctx, funcs + extra)
         rule_y4(ctx, funcs)
+        rule_y5(ctx, funcs)
+        rule_y6(ctx, funcs)
     else:
         rule_y1(ctx, funcs)
         rule_y2(ctx, funcs)
         rule_y3(ctx, funcs)
         rule_y4(ctx, funcs)
+        rule_y5(ctx, funcs)
+        rule_y6(ctx, funcs)
